@@ -32,6 +32,50 @@ func runC01(c *Ctx) {
 	r013(c)
 	r015(c)
 	r016(c)
+	r014(c)
+}
+
+// ---- R01.4 the traversal SQL binds the columns the semantics names ------------------------------
+
+func r014(c *Ctx) {
+	p, r := c.P, c.R
+	m := BuildSQLModel(p)
+	if m.Pkg == nil {
+		r.Undecide("R01.4", "", "sql model", "", strings.Join(m.Errs, "; "))
+		return
+	}
+	n := 0
+	for _, rs := range m.Raw {
+		fname := sqlPkgRel + "." + rs.Fn
+		if len(rs.Errs) > 0 {
+			if strings.Contains(rs.Fn, "Traverse") {
+				r.Undecide("R01.4", fname, "traversal statement", p.Pos(rs.Site), strings.Join(rs.Errs, "; "))
+			}
+			continue
+		}
+		for i, st := range rs.Parsed {
+			if st != nil && st.Kind == "SELECT" && st.Table == tupleTable {
+				n++
+				checkTraversalSelect(c, m, fname, rs, st, rs.Samples[i], "R01.4")
+			}
+		}
+	}
+	if n < 2 {
+		r.Undecide("R01.4", "", "traversal SELECT", "", fmt.Sprintf("%d instantiations of the subject-set expansion statement found (floor 2: subject id, subject set)", n))
+	}
+	// the rewrite traversal: queryWithNetwork + whereQuery(namespace, object, subject) + relation IN (?)
+	okIn := false
+	for _, wf := range m.Wheres {
+		if wf.Fn.Name.Name == "TraverseSubjectSetRewrite" && wf.Expr != nil {
+			for _, a := range wf.Expr.Atoms() {
+				if core.BaseColumn(a.Left) == "relation" && a.Cmp == "IN" {
+					okIn = true
+				}
+			}
+		}
+	}
+	r.Check(okIn, "R01.4", sqlPkgRel+".(*Traverser).TraverseSubjectSetRewrite", "relation IN (?)", "",
+		"the computed-subject-set shortcut restricts the relation column to the rewrite's relations", "the computed-subject-set shortcut no longer restricts the relation column")
 }
 
 // ---- R01.1 exhaustiveness ---------------------------------------------------------------
